@@ -107,6 +107,58 @@ def build_universe(seed, tier):
     for t in list(c.types) + st:
         if t.rust() not in seen:
             seen.add(t.rust()); u.types.append(t)
+    # near-miss mutants (C04): for every registered instance of a definition without type parameters
+    from universe import near_miss_mutants, Prim, Tuple
+    counter = [0]
+    u.mutant_pairs = []      # (index of the original, index of the mutant, kind)
+    done = set()
+    base_n = len(u.types)
+    for i in range(base_n):
+        t = u.types[i]
+        if not isinstance(t, Adt) or t.d.tparams or t.d.module or t.d.name in done:
+            continue
+        done.add(t.d.name)
+        for kind, md in near_miss_mutants(t.d, counter):
+            u.defs.append(md)
+            mt = Adt(md, [], list(t.cargs))
+            u.types.append(mt)
+            u.mutant_pairs.append((i, len(u.types) - 1, kind))
+        if t.d.cparams:
+            # const value changed: another instance of the same definition
+            c0 = t.d.cparams[0]
+            alt = list(t.cargs); alt[0] = (alt[0] + 1) % (2 if c0['prim'] == 'bool' else 3) if c0['prim'] in ('bool', 'usize') else (0x42 if alt[0] != 0x42 else 0x43)
+            at = Adt(t.d, [], alt)
+            if at.rust() not in seen:
+                seen.add(at.rust()); u.types.append(at)
+                u.mutant_pairs.append((i, len(u.types) - 1, 'const-value-changed'))
+    # the two recorded hash findings, as concrete pairs (see known_findings.json)
+    from universe import Def
+    ca = Def('a', False, 'none', [], 1, [], [{'name': 'N', 'prim': 'u16', 'default': None}], [('a', 'named', [('b', ('ty', Tuple(Prim('u8'), 3)))])])
+    cb = Def('S', False, 'none', [], 1, [], [], [('S', 'named', [('N', ('ty', Tuple(Prim('u8'), 1))), ('a', ('ty', Prim('u8'))), ('b', ('ty', Prim('u8')))])])
+    ca.module, cb.module = 'colla', 'collb'
+    u.defs += [ca, cb]
+    ta, tb = Adt(ca, [], [0xff53]), Adt(cb, [], [])
+    u.types += [ta, tb]; seen.update([ta.rust(), tb.rust()])
+    u.mutant_pairs.append((len(u.types) - 2, len(u.types) - 1, 'known-collision'))
+    for (a, b, kind) in list(u.mutant_pairs):
+        if kind == 'repr-align-added' and not u.types[a].d.is_enum and u.types[a].size() > 0:
+            x, y = Sum('bnd', [Seq('vec', u.types[a])]), Sum('bnd', [Seq('vec', u.types[b])])
+            u.types += [x, y]; seen.update([x.rust(), y.rust()])
+            u.mutant_pairs.append((len(u.types) - 2, len(u.types) - 1, 'known-bound-align-hole'))
+            break
+    # built-in near misses: sequence kind, array length, tuple arity, element type
+    def add(t):
+        if t.rust() not in seen:
+            seen.add(t.rust()); u.types.append(t)
+        return [x.rust() for x in u.types].index(t.rust())
+    for p in ('u32', 'u64'):
+        e = Prim(p)
+        ids = [add(Seq('vec', e)), add(Seq('bs', e)), add(Array(e, 3)), add(Array(e, 4)), add(Tuple(e, 3)), add(Tuple(e, 4)),
+               add(Seq('vec', Prim('i' + p[1:])))]
+        kinds = ['vec-vs-boxed-slice', 'vec-vs-array', 'array-length', 'array-vs-tuple', 'tuple-arity', 'element-retyped']
+        prs = [(ids[0], ids[1]), (ids[0], ids[2]), (ids[2], ids[3]), (ids[2], ids[4]), (ids[4], ids[5]), (ids[0], ids[6])]
+        for (a, b), k in zip(prs, kinds):
+            u.mutant_pairs.append((a, b, k))
     return u
 
 
